@@ -31,11 +31,53 @@ Proof.
   lra.
 Qed.
 
+(* sums are reduced at every step: Coq's binary integers make unreduced sums of doubles (denominators 2^52)
+   quadratically expensive; Qred x == x, so the theorems are unaffected *)
+Global Arguments Qred : simpl never.
 Fixpoint Qsum (l : list Q) : Q :=
-  match l with [] => 0 | x :: r => x + Qsum r end.
+  match l with [] => 0 | x :: r => Qred (x + Qsum r) end.
+
+Lemma Qsum_nil : Qsum [] = 0.
+Proof. reflexivity. Qed.
+Lemma Qsum_cons x r : Qsum (x :: r) == x + Qsum r.
+Proof. simpl. apply Qred_correct. Qed.
 
 Lemma Qsum_app l1 l2 : Qsum (l1 ++ l2) == Qsum l1 + Qsum l2.
-Proof. induction l1 as [|x l1 IH]; simpl; [ring | rewrite IH; ring]. Qed.
+Proof. induction l1 as [|x l1 IH]; simpl; rewrite ?Qred_correct; [ring | rewrite IH; ring]. Qed.
+
+Lemma Qsum_map_plus {A} (f g : A -> Q) l : Qsum (map (fun c => f c + g c) l) == Qsum (map f l) + Qsum (map g l).
+Proof. induction l as [|x l IH]; simpl; rewrite ?Qred_correct; [ring | rewrite IH; ring]. Qed.
+
+Lemma Qsum_map_ext {A} (f g : A -> Q) l : (forall x, In x l -> f x == g x) -> Qsum (map f l) == Qsum (map g l).
+Proof.
+  induction l as [|x l IH]; intro H; simpl; rewrite ?Qred_correct; [reflexivity|].
+  rewrite H by (left; reflexivity). rewrite IH; [reflexivity|]. intros y Hy. apply H. right. exact Hy.
+Qed.
+
+Lemma Qsum_map_scale {A} (a : Q) (f : A -> Q) l : Qsum (map (fun x => a * f x) l) == a * Qsum (map f l).
+Proof. induction l as [|x l IH]; simpl; rewrite ?Qred_correct; [ring | rewrite IH; ring]. Qed.
+
+Lemma Qsum_map_scale_r {A} (a : Q) (f : A -> Q) l : Qsum (map (fun x => f x * a) l) == Qsum (map f l) * a.
+Proof. induction l as [|x l IH]; simpl; rewrite ?Qred_correct; [ring | rewrite IH; ring]. Qed.
+
+Definition QlenL {A} (l : list A) : Q := inject_Z (Z.of_nat (List.length l)).
+
+Lemma QlenL_cons {A} (x : A) l : QlenL (x :: l) == QlenL l + 1.
+Proof. unfold QlenL. cbn [List.length]. rewrite Nat2Z.inj_succ, <- Z.add_1_r, inject_Z_plus. ring. Qed.
+
+Lemma Qsum_map_affine (a b : Q) (f : Q -> Q) l :
+  (forall x, f x == a * x + b) -> Qsum (map f l) == a * Qsum l + b * QlenL l.
+Proof.
+  intro Hf. induction l as [|x l IH].
+  - simpl. unfold QlenL. simpl. ring.
+  - cbn [map]. rewrite !Qsum_cons, IH, Hf, QlenL_cons. ring.
+Qed.
+
+Lemma Qsum_map_const {A} (b : Q) (l : list A) : Qsum (map (fun _ => b) l) == b * QlenL l.
+Proof.
+  induction l as [|x l IH]; [simpl; unfold QlenL; simpl; ring|].
+  cbn [map]. rewrite Qsum_cons, IH, QlenL_cons. ring.
+Qed.
 
 Definition Qmean (l : list Q) : Q := Qsum l / inject_Z (Z.of_nat (length l)).
 
